@@ -20,7 +20,7 @@ REAL_VS_STUB = {"real": ["stackscope greenlet + greenback glue", "greenlet 3.x",
 RARE_PROBES = ["asked_by_descendant", "asked_by_sibling", "target_dead", "target_unstarted", "target_current", "foreign_thread_checked", "greenback_checked"]
 LEGS = [
     {"name": "glet312", "python": "3.12", "quick": 3000, "thorough": 80000, "quick_s": 45, "thorough_s": 400, "run_timeout": 60, "hang_in_stackscope_is_violation": True, "params": {"mode": "tree"}},
-    {"name": "gback312", "python": "3.12", "quick": 300, "thorough": 6000, "quick_s": 45, "thorough_s": 300, "run_timeout": 90, "hang_in_stackscope_is_violation": True, "params": {"mode": "greenback"}},
+    {"name": "gback312", "python": "3.12", "quick": 3000, "thorough": 60000, "quick_s": 45, "thorough_s": 300, "run_timeout": 90, "hang_in_stackscope_is_violation": True, "params": {"mode": "greenback"}},
 
 ]
 
